@@ -96,6 +96,17 @@ CLAIMED['C17'] = dict(
     technique="observer read-set vs. copy write-set comparison, constructor-parity dataflow, alias/re-bind rules and forbidden-API scan over the clang-resolved AST and call graph",
     ref="DESIGN.md section 4, C17")
 
+CLAIMED['C16'] = dict(
+    text="Structural necessary conditions, exhaustively over every rule instance: in SPxSolverBase::solve no pivot is reachable once the iteration-limit "
+         "or interrupt test holds (CFG pruned under the assumption that the test, in exactly its >= form, is true) and the true arms abort with the "
+         "right status; in the polishing loops the limit tests lie between any two pivots and set the stop flag every loop tests; abort statuses "
+         "are never rewritten to a definite verdict and their arms store solution and basis; the exact solver maps stoppedTime/stoppedIter to "
+         "ABORT_TIME/ABORT_ITER and _isSolveStopped compares used amounts with the limits; every iteration/time budget handed to a solver is limit "
+         "minus amount already used; the interrupt pointer is forwarded by every caller that has one. Not a proof of resumability or of "
+         "objective-limit truth.",
+    technique="CFG reachability under guard-true assumptions, decision-table rules on status switches, argument-shape and parameter-forwarding rules over the clang-resolved AST",
+    ref="DESIGN.md section 4, C16")
+
 NA = {
     'C10': "every clause quantifies over run-time numbers (residuals at rounding level, singular vs. well-conditioned, agreement of multi-rhs solves); "
            "no structural clause is both checkable and necessary (DESIGN.md section 5)",
